@@ -588,17 +588,22 @@ func renderDoc(nodes []*Node, style int, emptyObj bool, pick func(*Field) (strin
 	var rec func(nodes []*Node, depth int) (string, bool)
 	rec = func(nodes []*Node, depth int) (string, bool) {
 		var members []string
+		var twice []string // style&8: members written a second time
 		for _, n := range nodes {
 			key := jsonString(n.Name, false)
 			if n.Leaf != nil {
 				if txt, ok := pick(n.Leaf); ok {
 					members = append(members, key+kvSep(style)+txt)
+					twice = append(twice, key+kvSep(style)+txt)
 				}
 				continue
 			}
 			sub, any := rec(n.Kids, depth+1)
 			if any || emptyObj {
 				members = append(members, key+kvSep(style)+sub)
+				if depth == 0 { // nested objects are repeated at the top level only, or the document doubles per level
+					twice = append(twice, key+kvSep(style)+sub)
+				}
 			}
 		}
 		if style&2 != 0 { // reversed member order
@@ -609,8 +614,8 @@ func renderDoc(nodes []*Node, style int, emptyObj bool, pick func(*Field) (strin
 		if len(members) == 0 {
 			return "{}", false
 		}
-		if style&8 != 0 { // every member a second time, with the identical value
-			members = append(members, members...)
+		if style&8 != 0 { // members a second time, with the identical value
+			members = append(members, twice...)
 		}
 		if style&4 != 0 { // CRLF line ends, blanks and tabs on both sides of every token
 			ind := "\r\n" + strings.Repeat("  ", depth+1)
